@@ -313,42 +313,39 @@ Definition ext_step (ismax : bool) (acc : option term) (o : option term) : optio
 Definition ext_raw (ismax : bool) (l : list (option term)) : option term :=
   fold_left (ext_step ismax) l None.
 
-(* Extremum.set_value: bindings[var] = Literal(self.value) -- an IRI or a blank
-   node becomes a plain literal with the same string (finding F8c) *)
+(* the code before commit cdcdb849 wrapped the extremum in Literal(...): an IRI or a blank node
+   became a plain literal with the same string (kept for the remark in Props/C08.v) *)
 Definition as_literal (t : term) : term :=
   match t with TB l => TStr l | TI s => TStr s | _ => t end.
 
-(* result of one accumulator over the rows of one group:
-   None = the query raises; Some None = variable left unbound *)
-Definition agg_run (a : aggspec) (rows : list sol) : option (option term) :=
+(* result of one accumulator over the rows of one group; None = the variable is left unbound.
+   As repaired by the "fix:" commits 0ada73ff (use_row skips unbound values also with DISTINCT),
+   cdcdb849 (MIN/MAX bind the term itself), 127411f7 (a bound non-numeric value sets the
+   [failed] flag of Sum/Average: unbound for that group). *)
+Definition agg_run (a : aggspec) (rows : list sol) : option term :=
   match a_arg a with
   | None =>   (* COUNT( * ): the full row *)
-      Some (Some (TInt (Z.of_nat (length (if a_distinct a then dedup sol_eqb rows else rows)))))
+      Some (TInt (Z.of_nat (length (if a_distinct a then dedup sol_eqb rows else rows))))
   | Some v =>
       let ov := ovals v rows in
+      let vals := use_rows (a_distinct a) (bound ov) in
       match a_kind a with
-      | ACount => Some (Some (TInt (Z.of_nat (length (use_rows (a_distinct a) (bound ov))))))
+      | ACount => Some (TInt (Z.of_nat (length vals)))
       | ASum =>
-          if a_distinct a && has_unbound ov then None       (* NotBoundError out of use_row *)
-          else
-            let vals := use_rows (a_distinct a) (bound ov) in
-            if forallb is_numeric vals then Some (Some (lit_of_num (sum_nums (nums_of vals))))
-            else None                                        (* SPARQLTypeError / AttributeError *)
+          if forallb is_numeric vals then Some (lit_of_num (sum_nums (nums_of vals)))
+          else None                                        (* failed *)
       | AAvg =>
-          if a_distinct a && has_unbound ov then None
-          else
-            (* non-numeric values are skipped (SPARQLTypeError is caught) *)
-            let nums := nums_of (use_rows (a_distinct a) (filter is_numeric (bound ov))) in
+          if forallb is_numeric vals then
+            let nums := nums_of vals in
             match nums with
-            | [] => Some (Some (TInt 0))
-            | _ => Some (Some (avg_lit (sum_nums nums) (Z.of_nat (length nums))))
+            | [] => Some (TInt 0)
+            | _ => Some (avg_lit (sum_nums nums) (Z.of_nat (length nums)))
             end
-      | AMin => Some (option_map as_literal (ext_raw false ov))
-      | AMax => Some (option_map as_literal (ext_raw true ov))
-      | ASample => Some (hd_error (bound ov))
-      | AConcat sep =>
-          if a_distinct a && has_unbound ov then None
-          else Some (Some (TStr (join sep (map term_str (use_rows (a_distinct a) (bound ov))))))
+          else None                                        (* failed *)
+      | AMin => ext_raw false ov
+      | AMax => ext_raw true ov
+      | ASample => hd_error (bound ov)
+      | AConcat sep => Some (TStr (join sep (map term_str vals)))
       end
   end.
 
@@ -402,12 +399,6 @@ Definition key_cond (ne : bool) (iri : str) (o : option term) : bool :=
   | Some t => if ne then negb (term_eqb t (TI iri)) else term_eqb t (TI iri)
   end.
 
-Fixpoint omap_all {A B} (f : A -> option B) (l : list A) : option (list B) :=
-  match l with
-  | [] => Some []
-  | x :: r => match f x, omap_all f r with Some y, Some ys => Some (y :: ys) | _, _ => None end
-  end.
-
 Fixpoint entries {A} (l : list (var * option A)) : list (var * A) :=
   match l with
   | [] => []
@@ -417,43 +408,28 @@ Fixpoint entries {A} (l : list (var * option A)) : list (var * A) :=
 
 (* the row of one group after Extend: projected group variables (implicit
    SAMPLE) in GROUP BY order, then the aliases in SELECT order *)
-Definition group_row (gv : list var) (aggs : list (var * aggspec)) (rows : list sol) : option sol :=
-  match omap_all (fun va => option_map (pair (fst va)) (agg_run (snd va) rows)) aggs with
-  | None => None
-  | Some avs => Some (entries (map (fun g => (g, hd_error (bound (ovals g rows)))) gv) ++ entries avs)
-  end.
+Definition group_row (gv : list var) (aggs : list (var * aggspec)) (rows : list sol) : sol :=
+  entries (map (fun g => (g, hd_error (bound (ovals g rows)))) gv
+           ++ map (fun va => (fst va, agg_run (snd va) rows)) aggs).
 
-(* None = raises; Some (keep?, row) *)
-Definition group_out (gv : list var) (aggs : list (var * aggspec)) (h : option having)
-                     (rows : list sol) : option (bool * sol) :=
-  match group_row gv aggs rows with
-  | None => None
-  | Some row =>
-      match h with
-      | None => Some (true, row)
-      | Some (HAgg ha op n) =>
-          match agg_run ha rows with
-          | None => None
-          | Some o => Some (cond_holds op n o, row)
-          end
-      | Some (HKey v ne iri) =>
-          (* translateAggregates: the key variable inside HAVING becomes SAMPLE(?v) *)
-          Some (key_cond ne iri (hd_error (bound (ovals v rows))), row)
-      end
+(* Filter(HAVING) on the row of the group *)
+Definition having_eval (h : option having) (rows : list sol) : bool :=
+  match h with
+  | None => true
+  | Some (HAgg ha op n) => cond_holds op n (agg_run ha rows)
+  | Some (HKey v ne iri) =>
+      (* translateAggregates: the key variable inside HAVING becomes SAMPLE(?v) *)
+      key_cond ne iri (hd_error (bound (ovals v rows)))
   end.
 
 Definition eval_aggjoin (gv : list var) (aggs : list (var * aggspec)) (h : option having)
-                        (input : list sol) : option (list sol) :=
+                        (input : list sol) : list sol :=
   match groups_of gv input with
   | [] =>
       (* "there were no matches": one empty row, which a HAVING filter rejects
-         because its aggregate variable is unbound (finding F8e) *)
-      Some (match h with None => [[]] | Some _ => [] end)
-  | gs =>
-      match omap_all (fun g => group_out gv aggs h (snd g)) gs with
-      | None => None
-      | Some outs => Some (map snd (filter fst outs))
-      end
+         because its aggregate variable is unbound *)
+      match h with None => [[]] | Some _ => [] end
+  | gs => map (fun g => group_row gv aggs (snd g)) (filter (fun g => having_eval h (snd g)) gs)
   end.
 
 (* ------------------------------------------------------------------ *)
@@ -484,20 +460,19 @@ Definition obs_eqb (a b : obs) : bool :=
   | _, _ => false
   end.
 
-Definition agg_stage (c : case) : option (list sol) :=
+Definition agg_stage (c : case) : list sol :=
   match c_group c with
-  | None => Some (c_input c)
+  | None => c_input c
   | Some gv => eval_aggjoin gv (c_aggs c) (c_having c) (c_input c)
   end.
 
 Definition post_stage (c : case) (a : list sol) : list sol :=
   eval_distinct (c_distinct c) (eval_project (c_proj c) (eval_orderby (c_order c) a)).
 
+(* no query of the fragment raises *)
 Definition model_obs (c : case) : obs :=
-  match agg_stage c with
-  | None => OErr
-  | Some a => let f := post_stage c a in ORows a f (eval_slice (c_slice c) f)
-  end.
+  let a := agg_stage c in
+  let f := post_stage c a in ORows a f (eval_slice (c_slice c) f).
 
 (* ------------------------------------------------------------------ *)
 (* Specification, as a checker of observed rows against the input sequence. *)
@@ -608,11 +583,7 @@ Definition agg_adm (a : aggspec) (rows : list sol) (r : option term) : bool :=
 Definition having_holds (h : option having) (rows : list sol) : bool :=
   match h with
   | None => true
-  | Some (HAgg ha op n) =>
-      match agg_run ha rows with
-      | Some o => cond_holds op n o
-      | None => false
-      end
+  | Some (HAgg ha op n) => cond_holds op n (agg_run ha rows)
   | Some (HKey v ne iri) =>
       match rows with
       | [] => false
@@ -635,15 +606,26 @@ Definition row_ok (gv : list var) (aggs : list (var * aggspec)) (input : list so
    HAVING (groups = the classes of the input under "same key"; without GROUP
    BY the single group of all solutions, also when there are none), carrying
    the key and an admissible value of every aggregate *)
+Definition agg_ok_groups (c : case) (gv : list var) (a : list sol) : bool :=
+  let allkeys := match gv with [] => [[]] | _ => map (key_of gv) (c_input c) end in
+  let want := filter (fun k => having_holds (c_having c) (members gv k (c_input c))) allkeys in
+  let got := map (key_of gv) a in
+  nodupb gkey_eqb got && subsetb gkey_eqb got want && subsetb gkey_eqb want got
+  && forallb (row_ok gv (c_aggs c) (c_input c)) a.
+
 Definition agg_ok (c : case) (a : list sol) : bool :=
   match c_group c with
   | None => rows_eqb a (c_input c)
-  | Some gv =>
-      let allkeys := match gv with [] => [[]] | _ => map (key_of gv) (c_input c) end in
-      let want := filter (fun k => having_holds (c_having c) (members gv k (c_input c))) allkeys in
-      let got := map (key_of gv) a in
-      nodupb gkey_eqb got && subsetb gkey_eqb got want && subsetb gkey_eqb want got
-      && forallb (row_ok gv (c_aggs c) (c_input c)) a
+  | Some ((_ :: _) as gv) =>
+      match c_input c with
+      | [] =>
+          (* GROUP BY over no solutions: the algebra (18.5: Group of an empty multiset has no
+             key) gives no row, the W3C test aggregates/agg-empty-group expects one row with
+             nothing bound - both are accepted *)
+          rows_eqb a [] || rows_eqb a [[]]
+      | _ :: _ => agg_ok_groups c gv a
+      end
+  | Some [] => agg_ok_groups c [] a
   end.
 
 (* --- ORDER BY / projection / DISTINCT ------------------------------- *)
@@ -711,49 +693,3 @@ Definition wf (c : case) : bool :=
   | Some gv => nodupb N.eqb (gv ++ map fst (c_aggs c))
                && match c_having c with Some (HKey v _ _) => memb N.eqb v gv | _ => true end
   end.
-
-Definition all_aggs (c : case) : list aggspec :=
-  map snd (c_aggs c) ++ match c_having c with Some (HAgg ha _ _) => [ha] | _ => [] end.
-
-Definition arg_vals (a : aggspec) (input : list sol) : list (option term) :=
-  match a_arg a with Some v => ovals v input | None => [] end.
-
-Definition kind_needs_bound (k : aggkind) : bool :=
-  match k with ASum | AAvg | AConcat _ => true | _ => false end.
-
-Definition is_kind_sum (k : aggkind) := match k with ASum => true | _ => false end.
-Definition is_kind_avg (k : aggkind) := match k with AAvg => true | _ => false end.
-Definition is_kind_ext (k : aggkind) := match k with AMin | AMax => true | _ => false end.
-
-Definition non_literal (o : option term) : bool :=
-  match o with Some (TB _) | Some (TI _) => true | _ => false end.
-
-Definition ext_nonlit (a : aggspec) (gv : list var) (input : list sol) : bool :=
-  match a_arg a, a_kind a with
-  | Some v, AMin => existsb (fun g => non_literal (ext_raw false (ovals v (snd g)))) (groups_of gv input)
-  | Some v, AMax => existsb (fun g => non_literal (ext_raw true (ovals v (snd g)))) (groups_of gv input)
-  | _, _ => false
-  end.
-
-(* 0 = none;
-   1 = F8a SUM over a bound non-numeric value raises
-   2 = F8b AVG skips non-numeric values
-   3 = F8c MIN/MAX of IRIs / blank nodes returns a plain literal
-   4 = F8d SUM/AVG/GROUP_CONCAT(DISTINCT ?v) raises when ?v is unbound in a row
-   5 = F8e GROUP BY over no solutions yields one empty row *)
-Definition kf (c : case) : N :=
-  match c_group c with
-  | None => 0
-  | Some gv =>
-      let inp := c_input c in
-      let aa := all_aggs c in
-      match gv, inp, c_having c with
-      | _ :: _, [], None => 5
-      | _, _, _ =>
-        if existsb (fun a => kind_needs_bound (a_kind a) && a_distinct a && has_unbound (arg_vals a inp)) aa then 4
-        else if existsb (fun a => is_kind_sum (a_kind a) && negb (forallb is_numeric (bound (arg_vals a inp)))) aa then 1
-        else if existsb (fun a => is_kind_avg (a_kind a) && negb (forallb is_numeric (bound (arg_vals a inp)))) aa then 2
-        else if existsb (fun a => ext_nonlit a gv inp) (map snd (c_aggs c)) then 3
-        else 0
-      end
-  end%N.
